@@ -1,6 +1,7 @@
 """Builds program cases (generated workflow + configuration swarm) shared by
 the workflow-level properties."""
 
+import json
 import random
 import traceback
 
@@ -288,7 +289,10 @@ def case_tags(case):
                     pubs[v] = pubs.get(v, 0) + 1
             for pd in allpubs:
                 for v, e in pd.items():
-                    if e[0] != 'dict':
+                    if e[0] != 'dict' or (kind == 'wf' and
+                                          'res' in json.dumps(e)):
+                        # (a dict literal that embeds the output of a
+                        # sub-workflow has varying leaf keys as well)
                         notpure.add(v)
                     if _has_dict(e) or (e[0] == 'res' and kind == 'wf') or \
                             (e[0] == 'list' and any(
